@@ -81,6 +81,7 @@ def distribute_isinstance(fn: ast.FunctionDef) -> ast.FunctionDef:
             return ast.IfExp(copy.deepcopy(a.test), l, r)
         if isinstance(a, ast.Constant) and a.value is None and \
                 'NoneType' not in ast.unparse(c.args[1]) and \
+                'type(None)' not in ast.unparse(c.args[1]) and \
                 'object' not in ast.unparse(c.args[1]).split('.')[-1:]:
             return ast.Constant(False)
         return c
